@@ -356,6 +356,22 @@ func checkC11Panic(s *PanicSpec) Result {
 		bFmt = "%v" + bFmt
 	}
 	full := callRedact("Sprintf", aFmt+d+bFmt, append(append(append([]interface{}{}, aArgs...), s.wrap(Build(s.value(false), 0))), bArgs...))
+	// StringWithoutMarkers (the String() twin of a SafeFormat method) contains
+	// what Sprint contains
+	if sf, ok := Build(s.value(false), 0).(redact.SafeFormatter); ok {
+		ref := callRedact("Sprint", "", []interface{}{sf})
+		var got string
+		p, pv := guard(func() { got = redact.StringWithoutMarkers(sf) })
+		if p != ref.panicked {
+			res.Err = fmt.Errorf("StringWithoutMarkers(x): panicked=%v (%v), Sprint(x): panicked=%v", p, pv, ref.panicked)
+			return res
+		}
+		if !p && got != string(strip(ref.out)) {
+			res.Err = fmt.Errorf("StringWithoutMarkers(x) = %s, Sprint(x) stripped = %s", qs(got), q(strip(ref.out)))
+			return res
+		}
+		res.Classes = append(res.Classes, "StringWithoutMarkers")
+	}
 	// a panic raised while printing the payload propagates (as in fmt): the
 	// payload's own method panics, or the payload is an error and the
 	// panicking hook is asked to render it
